@@ -57,6 +57,15 @@ func verifStartFaultyBackend() (addr string, stop func()) {
 					case strings.HasPrefix(p, "/close-mid-chunked"):
 						fmt.Fprintf(c, "HTTP/1.1 200 OK\r\nTransfer-Encoding: chunked\r\n\r\n5\r\nhello\r\n100\r\npartial")
 						return
+					case strings.HasPrefix(p, "/status-099"):
+						fmt.Fprintf(c, "HTTP/1.1 099 Bogus\r\nContent-Length: 2\r\n\r\nok")
+					case strings.HasPrefix(p, "/status-000"):
+						fmt.Fprintf(c, "HTTP/1.1 000 Zero\r\nContent-Length: 2\r\n\r\nok")
+					case strings.HasPrefix(p, "/status-999"):
+						fmt.Fprintf(c, "HTTP/1.1 999 Odd\r\nContent-Length: 2\r\n\r\nok")
+					case strings.HasPrefix(p, "/status-1000"):
+						fmt.Fprintf(c, "HTTP/1.1 1000 Long\r\nContent-Length: 2\r\n\r\nok")
+						return
 					case strings.HasPrefix(p, "/malformed-status"):
 						fmt.Fprintf(c, "HTTP/1.1 abc nonsense\r\n\r\n")
 						return
@@ -122,7 +131,7 @@ func TestVerifC07(t *testing.T) {
 	for _, k := range []string{"neterr-x3", "500-x3", "neterr-then-ok", "404", "garbage", "badheader"} {
 		faults = append(faults, fault{"fetch", k})
 	}
-	for _, k := range []string{"unreachable", "close-before-headers", "close-mid-headers", "reset-mid-body", "close-mid-chunked", "malformed-status", "garbage", "bad-chunk", "huge-header"} {
+	for _, k := range []string{"unreachable", "close-before-headers", "close-mid-headers", "reset-mid-body", "close-mid-chunked", "malformed-status", "garbage", "bad-chunk", "huge-header", "status-099", "status-000", "status-999", "status-1000"} {
 		faults = append(faults, fault{"backend", k})
 	}
 	for _, k := range []string{"500-x3", "neterr-x3", "500-then-ok"} {
@@ -154,6 +163,11 @@ func TestVerifC07(t *testing.T) {
 			t.Fatal(err)
 		}
 		for fi, f := range faults {
+			// written through at once: if the process dies, the fault in progress is on record
+			out.emit(map[string]interface{}{"kind": "fault-start", "config": config, "fault": f})
+			out.mu.Lock()
+			out.w.Flush()
+			out.mu.Unlock()
 			fp := newVerifFakeProxy()
 			mkReq := func(method, path, body string) []byte {
 				if body != "" {
